@@ -148,3 +148,106 @@ Section Loop.
   Qed.
 End Loop.
 
+
+(* ---------------------------------------------------------------- what a write may leave behind *)
+
+(* [serve] above writes every reply completely.  That is an ASSUMPTION about conn.Write, made
+   explicit here.  A call conn.Write(b) either writes all of b (err == nil) or returns an error
+   after some of the bytes (a write deadline that expires while the client is not reading, a
+   reset).  [wplan] lists the outcome of the successive Write calls of a connection:
+   None = complete, Some n = failed after n bytes.  [emit close_on_error plan rs] is what the
+   client can read when the loop writes the replies [rs] under these outcomes and, after a failed
+   write, either ends the connection ([close_on_error] = true) or goes on to the next reply. *)
+Definition wplan := list (option nat).
+
+Fixpoint emit (close_on_error : bool) (plan : wplan) (rs : list reply) : bytes :=
+  match rs with
+  | [] => []
+  | r :: rest =>
+    match plan with
+    | Some n :: plan' =>
+      firstn n (encode_reply r) ++ (if close_on_error then [] else emit close_on_error plan' rest)
+    | None :: plan' => encode_reply r ++ emit close_on_error plan' rest
+    | [] => encode_reply r ++ emit close_on_error [] rest
+    end
+  end.
+
+(* THE premise of C03_one_reply_in_order about the transport: every reply write is atomic, or
+   the connection is closed at the first write that is not.  It holds of a loop that sets no
+   write deadline (a failed write then means a dead connection: every later write fails with
+   nothing written) and of a loop that returns on the first write error; `harness_resp
+   writecheck` re-reads it from server/db_manager.go on every run. *)
+Definition write_atomic_or_close (close_on_error : bool) (plan : wplan) : Prop :=
+  close_on_error = true \/ Forall (fun w => w = None) plan.
+
+Lemma emit_atomic c : forall rs plan,
+  Forall (fun w => w = None) plan -> emit c plan rs = encode_replies rs.
+Proof.
+  unfold encode_replies.
+  induction rs as [|r rs IH]; intros plan H; [reflexivity|].
+  cbn [emit map concat]. destruct plan as [|w plan].
+  - rewrite (IH [] H). reflexivity.
+  - pose proof (Forall_inv H) as Hw. cbn beta in Hw. subst w.
+    rewrite (IH plan (Forall_inv_tail H)). reflexivity.
+Qed.
+
+(* closing at the first failed write: complete replies to a prefix of the commands, in order,
+   then at most a fragment of the next reply, then nothing *)
+Lemma emit_close : forall rs plan,
+  emit true plan rs = encode_replies rs
+  \/ exists k r n, nth_error rs k = Some r
+       /\ emit true plan rs = encode_replies (firstn k rs) ++ firstn n (encode_reply r).
+Proof.
+  unfold encode_replies.
+  induction rs as [|r rs IH]; intros plan; [left; reflexivity|].
+  cbn [emit]. destruct plan as [|[n|] plan].
+  - destruct (IH []) as [E|(k & r0 & n & Hk & E)].
+    + left. rewrite E. reflexivity.
+    + right. exists (S k), r0, n. split; [exact Hk|]. rewrite E. cbn [firstn map concat].
+      rewrite app_assoc. reflexivity.
+  - right. exists O, r, n. split; [reflexivity|]. rewrite app_nil_r. reflexivity.
+  - destruct (IH plan) as [E|(k & r0 & n & Hk & E)].
+    + left. rewrite E. reflexivity.
+    + right. exists (S k), r0, n. split; [exact Hk|]. rewrite E. cbn [firstn map concat].
+      rewrite app_assoc. reflexivity.
+Qed.
+
+Theorem write_atomic_or_close_sound c plan rs :
+  write_atomic_or_close c plan ->
+  emit c plan rs = encode_replies rs
+  \/ exists k r n, nth_error rs k = Some r
+       /\ emit c plan rs = encode_replies (firstn k rs) ++ firstn n (encode_reply r).
+Proof.
+  intros [->|H]; [apply emit_close|left; apply emit_atomic; exact H].
+Qed.
+
+(* with atomic writes [emit] is exactly what [serve] writes *)
+Lemma conn_output_emit St (exec1 : St -> list bytes -> option reply * St) c plan s bs :
+  Forall (fun w => w = None) plan ->
+  conn_output St exec1 s bs = emit c plan (replies St exec1 s (executed bs)).
+Proof. intros H. rewrite conn_output_executed, emit_atomic by exact H. reflexivity. Qed.
+
+(* Without the premise the property is false.  GET -> "$5 hello", PING -> "+PONG"; the first write
+   gives up after 7 bytes and the loop carries on: the next reply is spliced into the unfinished
+   bulk string.  The client can decode NO reply (it waits for 5 payload bytes and a CRLF and finds
+   "hel+P" "ON"), let alone the two it is owed; had it closed, the client would at least know. *)
+Example splice_counterexample :
+  let rs := [RBulk ["h"; "e"; "l"; "l"; "o"]%byte; RSimple ["P"; "O"; "N"; "G"]%byte] in
+  emit false [Some 7%nat] rs
+    = ["$"; "5"; "013"; "010"; "h"; "e"; "l"; "+"; "P"; "O"; "N"; "G"; "013"; "010"]%byte
+  /\ decode_stream (emit false [Some 7%nat] rs) <> (rs, [])
+  /\ fst (decode_stream (emit false [Some 7%nat] rs)) = []
+  /\ ~ write_atomic_or_close false [Some 7%nat]
+  /\ emit true [Some 7%nat] rs = ["$"; "5"; "013"; "010"; "h"; "e"; "l"]%byte.
+Proof.
+  repeat split; try (vm_compute; reflexivity); try (vm_compute; discriminate).
+  intros [H|H]; [discriminate H|]. inversion H as [|w l Hw _]. discriminate Hw.
+Qed.
+
+(* a longer payload: the spliced reply is swallowed as payload and the stream stays out of step *)
+Example splice_swallows_next_reply :
+  let rs := [RBulk ["a"; "b"; "c"; "d"; "e"; "f"; "g"; "h"; "i"; "j"; "k"; "l"]%byte;
+             RSimple ["P"; "O"; "N"; "G"]%byte; RInt 1] in
+  decode_stream (emit false [Some 8%nat] rs) <> (rs, [])
+  /\ List.length (fst (decode_stream (emit false [Some 8%nat] rs))) <> 3%nat.
+Proof. split; vm_compute; [discriminate|lia]. Qed.
